@@ -327,6 +327,18 @@ def run_shard(spec, tier, seed):
 
             # addition
             AB = A.add(Bv)
+            J.vec("a+b is the component-wise Cartesian sum", cell, AB, R.RV(*[p_ + q_ for p_, q_ in zip(ea.comps(), eb.comps())]), unit, det)
+            if not anytau:
+                # nearly cancelling operands: b' = -(1 + 2^-k) a written in b's system; the sum is 2^-k of the operands and has
+                # to come out to 1e-9 of *their* size (a difference of operand-sized squares would not)
+                for k_ in (12, 28, 40):
+                    try:
+                        cl_ = mk(R.op_scale(a_rv, -(1 + mpf(2) ** -k_)), bsys, bi % 2 == 1)
+                    except R.NotRepresentable:
+                        continue
+                    ec_ = mode.exact(cl_)
+                    J.vec(f"a+b is the component-wise Cartesian sum [b = -(1+2^-{k_}) a]", cell, A.add(mode.vec(cl_)),
+                          R.RV(*[p_ + q_ for p_, q_ in zip(ea.comps(), ec_.comps())]), unit, {**det, "b": cl_.describe()})
             J.vec("add commutative a+b=b+a", cell, AB, Bv.add(A), unit, det)
             J.vec("add associative (a+b)+c=a+(b+c)", cell, AB.add(Cv), A.add(Bv.add(Cv)), unit, det)
             J.vec("subtract inverts add (a+b)-b=a", cell, AB.subtract(Bv), A, unit, det)
